@@ -148,13 +148,15 @@ theorem step_b1_cases (cfg : Cfg) (st : B1State) (cur : Req) (r : Resp) :
 /-- `reqs` cuts `p` in order starting at byte `off`, with size exponents bounded by `s` and
 never growing: each request carries the Block2 option `hb` of the application's request and
 `p[off, off + n)` -- `n` one block, or (BERT) a positive whole number of KiB --, is numbered
-`off / size` (`size` = 1024 for BERT), has the more
+`off / size` (`size` = 1024 for BERT), starts inside `p` (or is block 0 of an EMPTY `p`: a request
+with the Block1 size hint and no payload), has the more
 flag iff bytes remain after it, and nothing follows a block without the more flag. -/
 inductive Cut (p : Bytes) (hb : Option BlockOpt) : Nat → Nat → List Req → Prop
   | nil (off s : Nat) : Cut p hb off s []
   | whole (s : Nat) : Cut p hb 0 s [{ block1 := none, block2 := hb, size1 := none, payload := p }]
   | block {off s n : Nat} {b : BlockOpt} {sz1 : Option Nat} {rest : List Req} :
-      b.szx ≤ s → b.szx ≤ 7 → BlkLen b.szx n → b.num * b.size = off → off < p.length →
+      b.szx ≤ s → b.szx ≤ 7 → BlkLen b.szx n → b.num * b.size = off →
+      (off < p.length ∨ (off = 0 ∧ p.length = 0)) →
       (b.more = true ↔ off + n < p.length) →
       (b.more = false → rest = []) →
       Cut p hb (off + n) b.szx rest →
@@ -168,6 +170,13 @@ theorem Cut.weaken {p : Bytes} {off s s' : Nat} {hb : Option BlockOpt} {reqs : L
   | whole => exact Cut.whole _
   | block h1 h2 h3 h4 h5 h6 h7 h8 => exact Cut.block (by omega) h2 h3 h4 h5 h6 h7 h8
 
+theorem inside_off {cfg : Cfg} {st : B1State} (hinv : B1Inv cfg st) (hf : fragmented cfg st.szx = true) :
+    st.cursor * unit st.szx < cfg.payload.length ∨
+      (st.cursor * unit st.szx = 0 ∧ cfg.payload.length = 0) := by
+  rcases hinv.inside hf with h | ⟨h0, hl⟩
+  · exact Or.inl h
+  · exact Or.inr ⟨by rw [h0, Nat.zero_mul], hl⟩
+
 /-- **The Block1 requests emitted against any response sequence are an in-order cut.** -/
 theorem cut_go {cfg : Cfg} {st : B1State} {cur : Req} (hinv : B1Inv cfg st)
     (hcur : nextRequest cfg st = some cur) (rs : List Resp) :
@@ -177,14 +186,14 @@ theorem cut_go {cfg : Cfg} {st : B1State} {cur : Req} (hinv : B1Inv cfg st)
     rw [go_nil]
     rw [nextRequest_eq hinv] at hcur
     obtain ⟨_, _, _, hlen⟩ := blk_spec (mp := cfg.maxPayload) hinv.szx_le hinv.bert
-    by_cases hf : cfg.payload.length > threshold cfg st.szx
-    · simp only [hf, ↓reduceIte, Option.some.injEq] at hcur
+    by_cases hf : fragmented cfg st.szx = true
+    · simp only [hf, Bool.false_eq_true, ↓reduceIte, Option.some.injEq] at hcur
       subst hcur
       simp only [Phase.outstanding, Option.toList_some, b1Reqs, List.filter_cons, isB1Phase_mk_hint,
         ↓reduceIte, List.filter_nil]
-      exact Cut.block (Nat.le_refl _) hinv.szx_le hlen rfl (hinv.inside hf) (by simp) (fun _ => rfl)
+      exact Cut.block (Nat.le_refl _) hinv.szx_le hlen rfl (inside_off hinv hf) (by simp) (fun _ => rfl)
         (Cut.nil _ _)
-    · simp only [hf, ↓reduceIte, Option.some.injEq] at hcur
+    · simp only [hf, Bool.false_eq_true, ↓reduceIte, Option.some.injEq] at hcur
       subst hcur
       rw [hinv.whole hf]
       simp only [Phase.outstanding, Option.toList_some, b1Reqs, List.filter_cons, isB1Phase_mk_hint,
@@ -197,8 +206,8 @@ theorem cut_go {cfg : Cfg} {st : B1State} {cur : Req} (hinv : B1Inv cfg st)
     rw [nextRequest_eq hinv] at hcur
     obtain ⟨_, _, _, hlen⟩ := blk_spec (mp := cfg.maxPayload) hinv.szx_le hinv.bert
     have hcases := step_b1_cases cfg st cur r
-    by_cases hf : cfg.payload.length > threshold cfg st.szx
-    · simp only [hf, ↓reduceIte, Option.some.injEq] at hcur
+    by_cases hf : fragmented cfg st.szx = true
+    · simp only [hf, Bool.false_eq_true, ↓reduceIte, Option.some.injEq] at hcur
       have hsent : (sentBlock1 st cur).more
           = decide (st.cursor * unit st.szx + blk cfg.maxPayload st.szx < cfg.payload.length) := by
         rw [← hcur]; rfl
@@ -215,7 +224,7 @@ theorem cut_go {cfg : Cfg} {st : B1State} {cur : Req} (hinv : B1Inv cfg st)
       subst hcur
       simp only [Phase.outstanding, Option.toList_some, b1Reqs, List.cons_append, List.nil_append,
         List.filter_cons, isB1Phase_mk_hint, ↓reduceIte]
-      refine Cut.block (Nat.le_refl _) hinv.szx_le hlen rfl (hinv.inside hf) (by simp) ?_ ?_
+      refine Cut.block (Nat.le_refl _) hinv.szx_le hlen rfl (inside_off hinv hf) (by simp) ?_ ?_
       · intro hm
         simp only [decide_eq_false_iff_not] at hm
         rcases hcases with h | ⟨h, _⟩
@@ -232,7 +241,7 @@ theorem cut_go {cfg : Cfg} {st : B1State} {cur : Req} (hinv : B1Inv cfg st)
           simp only [b1Reqs] at this
           rw [reduceB_offset _ hinv.szx_le, hadv h] at this
           exact this.weaken (by rw [reduceB_szx _ hinv.szx_le]; exact Nat.min_le_right _ _)
-    · simp only [hf, ↓reduceIte, Option.some.injEq] at hcur
+    · simp only [hf, Bool.false_eq_true, ↓reduceIte, Option.some.injEq] at hcur
       have hsent : (sentBlock1 st cur).more = false := by rw [← hcur]; rfl
       rw [hsent] at hcases
       subst hcur
@@ -351,7 +360,8 @@ a block length `n` (one block, BERT: a positive whole number of KiB), the more f
 bytes remain behind the block -/
 theorem Cut.each {p : Bytes} {off s : Nat} {hb : Option BlockOpt} {reqs : List Req} (h : Cut p hb off s reqs) :
     ∀ r ∈ reqs, ∀ b, r.block1 = some b →
-      b.szx ≤ s ∧ b.szx ≤ 7 ∧ off ≤ b.start ∧ b.start < p.length ∧
+      b.szx ≤ s ∧ b.szx ≤ 7 ∧ off ≤ b.start ∧
+      (b.start < p.length ∨ (b.start = 0 ∧ p.length = 0)) ∧
       ∃ n, BlkLen b.szx n ∧ r.payload = (p.drop b.start).take n ∧
         (b.more = true ↔ b.start + n < p.length) := by
   induction h with
